@@ -1,9 +1,121 @@
 /-
   C10 — bitwise functions behave as on infinitely sign-extended two's-complement bit strings.
   Property theorems only; helper lemmas live in MpirProofs/Lemmas/Bits.lean.
+  Every theorem is about the executable models of Mpir/Model/Bits.lean (namespace `Mpir.Bits`), which the
+  correspondence check runs against the real mpn_* / mpz_* functions on every run.  The specification side is
+  Mathlib's `Int.land / Int.lor / Int.xor / Int.lnot / Int.testBit` (Mathlib.Data.Int.Bitwise, Batteries) and
+  `Nat.land/lor/xor/ldiff`, whose meaning is pinned by `Int.testBit_land` etc.
 -/
 import MpirProofs.Lemmas.Bits
 namespace Mpir.Bits
 open Mpir
+
+/-! ## mpn logic kernels: the plain bitwise function on limb vectors (any equal length, any limbs) -/
+
+/-- mpn_and_n -/
+theorem and_n_spec (u v : List Nat) (hu : Limbs u) (hv : Limbs v) (hl : u.length = v.length) :
+    val (and_n u v) = val u &&& val v ∧ Limbs (and_n u v) ∧ (and_n u v).length = u.length := by
+  obtain ⟨e, l⟩ := and_n_val_any u v hu hv
+  exact ⟨e, l, by simp [and_n, hl]⟩
+example : and_n [B - 1, 0xf0f0] [0xff00ff, B - 1] = [0xff00ff, 0xf0f0] := by decide
+
+/-- mpn_ior_n -/
+theorem ior_n_spec (u v : List Nat) (hu : Limbs u) (hv : Limbs v) (hl : u.length = v.length) :
+    val (ior_n u v) = val u ||| val v ∧ Limbs (ior_n u v) ∧ (ior_n u v).length = u.length := by
+  obtain ⟨e, l⟩ := zipWith_eqlen limbOp_or u v hl hu hv
+  exact ⟨e, l, by simp [ior_n, hl]⟩
+example : ior_n [1, 0xf0] [B - 2, 0x0f] = [B - 1, 0xff] := by decide
+
+/-- mpn_xor_n -/
+theorem xor_n_spec (u v : List Nat) (hu : Limbs u) (hv : Limbs v) (hl : u.length = v.length) :
+    val (xor_n u v) = val u ^^^ val v ∧ Limbs (xor_n u v) ∧ (xor_n u v).length = u.length := by
+  obtain ⟨e, l⟩ := zipWith_eqlen limbOp_xor u v hl hu hv
+  exact ⟨e, l, by simp [xor_n, hl]⟩
+example : xor_n [B - 1, 5] [1, 5] = [B - 2, 0] := by decide
+
+/-- mpn_andn_n: u AND NOT v (`Nat.ldiff`: bit i is `uᵢ && !vᵢ`, `Nat.testBit_ldiff`) -/
+theorem andn_n_spec (u v : List Nat) (hu : Limbs u) (hv : Limbs v) (hl : u.length = v.length) :
+    val (andn_n u v) = Nat.ldiff (val u) (val v) ∧ Limbs (andn_n u v) ∧ (andn_n u v).length = u.length := by
+  obtain ⟨e, l⟩ := zipWith_eqlen limbOp_andn u v hl hu hv
+  exact ⟨e, l, by simp [andn_n, hl]⟩
+example : andn_n [B - 1, 0xff] [0xf, 0xf0] = [B - 16, 0x0f] := by decide
+
+/-- mpn_com_n: every bit of the n-limb vector flipped -/
+theorem com_n_spec (u : List Nat) (hu : Limbs u) :
+    val (com_n u) = B ^ u.length - 1 - val u ∧ Limbs (com_n u) ∧ (com_n u).length = u.length :=
+  com_n_val u hu
+example : com_n [0, B - 1, 5] = [B - 1, 0, B - 6] := by decide
+
+/-- mpn_nand_n = complement of and_n within n limbs -/
+theorem nand_n_spec (u v : List Nat) (hu : Limbs u) (hv : Limbs v) (hl : u.length = v.length) :
+    val (nand_n u v) = B ^ u.length - 1 - (val u &&& val v) ∧ Limbs (nand_n u v) ∧
+    (nand_n u v).length = u.length := by
+  obtain ⟨e, l, n⟩ := and_n_spec u v hu hv hl
+  obtain ⟨c1, c2, c3⟩ := com_n_val _ l
+  rw [nand_n_eq]; exact ⟨by rw [c1, e, n], c2, by rw [c3, n]⟩
+example : nand_n [B - 1, 3] [5, 6] = [B - 6, B - 3] := by decide
+
+/-- mpn_nior_n -/
+theorem nior_n_spec (u v : List Nat) (hu : Limbs u) (hv : Limbs v) (hl : u.length = v.length) :
+    val (nior_n u v) = B ^ u.length - 1 - (val u ||| val v) ∧ Limbs (nior_n u v) ∧
+    (nior_n u v).length = u.length := by
+  obtain ⟨e, l, n⟩ := ior_n_spec u v hu hv hl
+  obtain ⟨c1, c2, c3⟩ := com_n_val _ l
+  rw [nior_n_eq]; exact ⟨by rw [c1, e, n], c2, by rw [c3, n]⟩
+example : nior_n [1, 3] [4, 6] = [B - 6, B - 8] := by decide
+
+/-- mpn_xnor_n -/
+theorem xnor_n_spec (u v : List Nat) (hu : Limbs u) (hv : Limbs v) (hl : u.length = v.length) :
+    val (xnor_n u v) = B ^ u.length - 1 - (val u ^^^ val v) ∧ Limbs (xnor_n u v) ∧
+    (xnor_n u v).length = u.length := by
+  obtain ⟨e, l, n⟩ := xor_n_spec u v hu hv hl
+  obtain ⟨c1, c2, c3⟩ := com_n_val _ l
+  rw [xnor_n_eq]; exact ⟨by rw [c1, e, n], c2, by rw [c3, n]⟩
+example : xnor_n [1, 3] [4, 6] = [B - 6, B - 6] := by decide
+
+/-- mpn_iorn_n: u OR NOT v = NOT (v AND NOT u) within n limbs -/
+theorem iorn_n_spec (u v : List Nat) (hu : Limbs u) (hv : Limbs v) (hl : u.length = v.length) :
+    val (iorn_n u v) = B ^ u.length - 1 - Nat.ldiff (val v) (val u) ∧ Limbs (iorn_n u v) ∧
+    (iorn_n u v).length = u.length := by
+  obtain ⟨e, l, n⟩ := andn_n_spec v u hv hu hl.symm
+  obtain ⟨c1, c2, c3⟩ := com_n_val _ l
+  rw [iorn_n_eq u v hu hv]; exact ⟨by rw [c1, e, n, hl], c2, by rw [c3, n, hl]⟩
+example : iorn_n [1, 0] [B - 1, 0xff] = [1, B - 256] := by decide
+
+/-! ## mpz_and / mpz_ior / mpz_xor / mpz_com: all four sign combinations, any lengths, result well formed -/
+
+/-- mpz_and equals Mathlib's two's-complement `Int.land`; the result is well formed (in particular in the
+    case -,- where the result is one limb longer than both operands). -/
+theorem mpz_and_spec (a b : Z) (ha : a.WF) (hb : b.WF) :
+    (mpz_and a b).toInt = Int.land a.toInt b.toInt ∧ (mpz_and a b).WF := by
+  rw [← land_eq]; exact mpz_and_land a b ha hb
+-- -(B) & -(B^2-1) = -(B^2): grows a limb
+example : mpz_and ⟨true, [0, 1]⟩ ⟨true, [B - 1, B - 1]⟩ = ⟨true, [0, 0, 1]⟩ := by decide
+-- positive & negative with a low zero limb (borrow through |b| - 1)
+example : mpz_and ⟨false, [B - 1, B - 1, 7]⟩ ⟨true, [0, 2]⟩ = ⟨false, [0, B - 2, 7]⟩ := by decide
+
+/-- mpz_ior equals `Int.lor`. -/
+theorem mpz_ior_spec (a b : Z) (ha : a.WF) (hb : b.WF) :
+    (mpz_ior a b).toInt = Int.lor a.toInt b.toInt ∧ (mpz_ior a b).WF := by
+  rw [← lor_eq]; exact mpz_ior_lor a b ha hb
+example : mpz_ior ⟨false, [5]⟩ ⟨true, [0, 1]⟩ = ⟨true, [B - 5]⟩ := by decide
+example : mpz_ior ⟨true, [0, 0, 1]⟩ ⟨true, [0, 3]⟩ = ⟨true, [0, 3]⟩ := by decide
+
+/-- mpz_xor equals `Int.xor`. -/
+theorem mpz_xor_spec (a b : Z) (ha : a.WF) (hb : b.WF) :
+    (mpz_xor a b).toInt = Int.xor a.toInt b.toInt ∧ (mpz_xor a b).WF := by
+  rw [← lxor_eq]; exact mpz_xor_lxor a b ha hb
+-- (B-1) ^ -(1): a ^ (|b|-1) + 1 carries out of the limb
+example : mpz_xor ⟨false, [B - 1]⟩ ⟨true, [1]⟩ = ⟨true, [0, 1]⟩ := by decide
+example : mpz_xor ⟨true, [0, 1]⟩ ⟨true, [0, 1]⟩ = ⟨false, []⟩ := by decide
+
+/-- mpz_com: `~x = -x - 1` (`Int.lnot`, which is also core's `~~~`). -/
+theorem mpz_com_spec (a : Z) (ha : a.WF) :
+    (mpz_com a).toInt = Int.lnot a.toInt ∧ (mpz_com a).toInt = -a.toInt - 1 ∧ (mpz_com a).WF := by
+  obtain ⟨h1, h2⟩ := mpz_com_lnot a ha
+  refine ⟨by rw [← lnot_eq]; exact h1, ?_, h2⟩
+  rw [h1, lnot_eq_neg]
+example : mpz_com ⟨false, [B - 1, B - 1]⟩ = ⟨true, [0, 0, 1]⟩ := by decide
+example : mpz_com ⟨true, [0, 0, 1]⟩ = ⟨false, [B - 1, B - 1]⟩ := by decide
 
 end Mpir.Bits
